@@ -148,6 +148,10 @@ func writeConf(dir string, conf map[string]string, sinkPort int) {
 	sort.Strings(keys)
 	var sb strings.Builder
 	for _, k := range keys {
+		if conf[k] == "" {
+			fmt.Fprintf(&sb, "%s: \"\"\n", k) // an explicit empty string, not a YAML null
+			continue
+		}
 		fmt.Fprintf(&sb, "%s: %s\n", k, conf[k])
 	}
 	os.WriteFile(filepath.Join(dir, "vflow.conf"), []byte(sb.String()), 0o644)
